@@ -266,10 +266,14 @@ def nf(e):
     if isinstance(e, ast.Name):
         return e.id
     if isinstance(e, ast.Attribute):
-        s = unparse(e, 0)
-        for p in NUMERIC_PREFIXES:
-            if s.startswith(p):
-                return SYNONYMS.get(s[len(p):], s[len(p):])
+        base = e
+        while isinstance(base, ast.Attribute):
+            base = base.value
+        if isinstance(base, ast.Name):      # a pure dotted name: np.sqrt, math.pi
+            s = unparse(e, 0)
+            for p in NUMERIC_PREFIXES:
+                if s.startswith(p):
+                    return SYNONYMS.get(s[len(p):], s[len(p):])
         return nf(e.value) + '.' + e.attr
     if isinstance(e, ast.BinOp):
         if isinstance(e.op, (ast.Add, ast.Sub)):
@@ -377,7 +381,22 @@ def nf(e):
         return f'ifexp({nf(e.test)},{nf(e.body)},{nf(e.orelse)})'
     if isinstance(e, ast.Starred):
         return '*' + nf(e.value)
+    if isinstance(e, ast.Lambda):
+        return 'lambda ' + unparse(e.args, 0) + ': ' + nf(e.body)
+    if isinstance(e, (ast.ListComp, ast.GeneratorExp, ast.SetComp)):
+        br = {'ListComp': '[]', 'GeneratorExp': '()', 'SetComp': '{}'}[type(e).__name__]
+        return br[0] + nf(e.elt) + ''.join(_nf_comp(g) for g in e.generators) + br[1]
+    if isinstance(e, ast.DictComp):
+        return '{' + nf(e.key) + ': ' + nf(e.value) + ''.join(_nf_comp(g) for g in e.generators) + '}'
+    if isinstance(e, ast.Dict):
+        return '{' + ', '.join(('**' if k is None else nf(k) + ': ') + nf(v) for k, v in zip(e.keys, e.values)) + '}'
+    if isinstance(e, ast.NamedExpr):
+        return '(' + nf(e.target) + ' := ' + nf(e.value) + ')'
     return unparse(e, 0)
+
+
+def _nf_comp(g):
+    return ' for ' + nf(g.target) + ' in ' + nf(g.iter) + ''.join(' if ' + nf(c) for c in g.ifs)
 
 
 def _nf_index(s):
